@@ -20,4 +20,12 @@ TEXT = {
         design_ref="DESIGN.md section 3, C19",
         level_note=NOTE_COMMON + " Platform independence is only observed on this machine.",
         technique="exhaustive runtime comparison with a reference recurrence + ltrace/strace purity monitor"),
+    "C08": dict(
+        level_text="Exploration by direct calls of the three QR helper classes on ~43k (quick) generated Hessenberg/tridiagonal matrices per run "
+                   "(all subdiagonal zero masks for n<=8, exact-eigenvalue and diagonal-entry shifts, graded, deflated, extreme scalings, 3 scalar types) under ASan+UBSan; "
+                   "every documented identity (Q orthogonal, QR=H-sI, R exactly triangular, Q'HQ value and exact shape, each apply_* overload incl. Map and strided block, "
+                   "double-shift first column) judged in long double against 64*n*eps*(||H||+|s|).",
+        design_ref="DESIGN.md section 3, C08",
+        level_note=NOTE_COMMON,
+        technique="runtime oracle (extended-precision identities) over generated inputs, ASan+UBSan build"),
 }
